@@ -698,7 +698,8 @@ class VMF:
         """Remove an entity from the map.
 
         After this is called, the entity will no longer be exported.
-        The object still exists, so it can be reused.
+        The object still exists, so it can be reused. It keeps its ID
+        reserved until it is destroyed.
         """
         try:
             self.entities.remove(item)
@@ -714,8 +715,6 @@ class VMF:
                 pass
             else:
                 self.node_id.discard(node_id)
-
-        self.ent_id.discard(item.id)
 
     def add_brushes(self, brushes: Iterable['Solid']) -> None:
         """Add multiple brushes to the map."""
